@@ -272,7 +272,7 @@ pub fn fork_stream(f: impl FnOnce(&mut dyn FnMut(&str))) -> (End, Vec<String>, S
         End::Exit(-1)
     };
     let stderr = String::from_utf8_lossy(&stderr).into_owned();
-    if stderr.contains("Sanitizer") {
+    if stderr.contains("ERROR: AddressSanitizer") || stderr.contains("LeakSanitizer") || stderr.contains("ThreadSanitizer") {
         // sanitizer reports of a child must reach the driver
         eprintln!("{}", stderr);
     }
